@@ -206,3 +206,87 @@ def selfcheck():
     # G2 has no non-zero exceptional u, G1 has two
     assert exceptional_us("G2") == [] and len(exceptional_us("G1")) == 2
     return True
+
+
+# ---- inputs whose SWU image lies in the kernel of the isogeny ------------------------------------------------
+def _poly_roots(coeffs, p):
+    """All roots in GF(p) of the polynomial (low degree first): gcd with x^p - x, then equal-degree
+    splitting with (x + a)^((p-1)/2) - 1."""
+    from .fields import _pgcd, _pmod, _ppowmod
+    f = [c % p for c in coeffs]
+    while f and f[-1] == 0:
+        f.pop()
+    xp = _ppowmod([0, 1], p, f, p)
+    h = xp + [0] * (2 - len(xp))
+    h[1] = (h[1] - 1) % p
+    while h and h[-1] == 0:
+        h.pop()
+    g = _pgcd(f, h, p) if h else f
+    roots, stack, a = [], [g], 1
+    while stack:
+        q = stack.pop()
+        while q and q[-1] == 0:
+            q.pop()
+        d = len(q) - 1
+        if d <= 0:
+            continue
+        if d == 1:
+            roots.append((-q[0] * pow(q[1], -1, p)) % p)
+            continue
+        while True:
+            t = _ppowmod([a % p, 1], (p - 1) // 2, q, p)
+            a += 1
+            t = t + [0] * (1 - len(t))
+            t[0] = (t[0] - 1) % p
+            while t and t[-1] == 0:
+                t.pop()
+            if not t:
+                continue
+            s = _pgcd(q, t, p)
+            if 0 < len(s) - 1 < d:
+                # q / s
+                quo, rem = [], list(q)
+                inv = pow(s[-1], -1, p)
+                for k in range(len(q) - len(s), -1, -1):
+                    c = rem[k + len(s) - 1] * inv % p
+                    quo.insert(0, c)
+                    for i, sc in enumerate(s):
+                        rem[k + i] = (rem[k + i] - c * sc) % p
+                stack += [s, quo]
+                break
+    return sorted(set(roots))
+
+
+def iso_kernel_us(g="G1"):
+    """Field elements u whose simplified-SWU image is a rational point of the isogeny's kernel (the x
+    denominator vanishes): RFC 9380 maps them to the identity.  Only G1 has such u (the 3-isogeny kernel
+    of the G2 suite is not rational)."""
+    if g != "G1":
+        return []
+    S = suite("G1")
+    F, A, B, Z = S.F, S.A, S.B, S.Z
+    mba = F.div(F.neg(B), A)                          # -B/A
+    us = set()
+    for x0 in _poly_roots(S.xden, P):
+        ts = []
+        # branch x = x1:  (-B/A)(1 + 1/(t^2+t)) = x0
+        c = F.sub(F.div(x0, mba), 1)
+        if c:
+            disc = F.add(1, F.mul(4, F.inv(c)))
+            r = nt.sqrt_mod(disc, P)
+            if r is not None:
+                ts += [F.div(F.sub(r, 1), 2), F.div(F.sub(F.neg(r), 1), 2)]
+        # branch x = x2 = t x1:  (-B/A)(t^2 + t + 1) = x0 (t + 1)
+        qa, qb, qc = mba, F.sub(mba, x0), F.sub(mba, x0)
+        disc = F.sub(F.mul(qb, qb), F.mul(4, F.mul(qa, qc)))
+        r = nt.sqrt_mod(disc, P)
+        if r is not None:
+            ts += [F.div(F.sub(r, qb), F.mul(2, qa)), F.div(F.sub(F.neg(r), qb), F.mul(2, qa))]
+        for t in ts:
+            u = nt.sqrt_mod(F.div(t, Z), P)
+            if u is None:
+                continue
+            for cand in (u, F.neg(u)):
+                if S.map_to_curve(cand)[0] is None:
+                    us.add(cand)
+    return sorted(us)
